@@ -144,7 +144,22 @@ def make_natives(E, unit):
         return f
 
     def n_unit(ex, callee, args, m):
+        tgt = getattr(ex, "target_unit", None)
+        if callee.startswith("<T ") and tgt is not None:
+            return VEnum(TIMEUNIT_DISC[tgt])           # inside into_unit::<tgt>: T is the target unit
         return VEnum(disc)
+
+    def n_into_unit(ex, callee, args, m):
+        """DateTime<U>::into_unit::<Target>() called with a concrete target: the generic MIR body with T bound to it"""
+        c = [f for n, f in fns.items() if n.endswith("::into_unit") and "convert" in n]
+        if len(c) != 1:
+            raise ExecError("cannot locate DateTime::into_unit in the MIR dump")
+        saved = getattr(ex, "target_unit", None)
+        ex.target_unit = m.group(1)
+        try:
+            return ex.exec_fn(c[0], args)
+        finally:
+            ex.target_unit = saved
 
     def _disc(v):
         if isinstance(v, VEnum):
@@ -549,6 +564,8 @@ def make_natives(E, unit):
     return [
         (N(r"^<[UT] as timeunit::TimeUnitTrait>::unit$"), n_unit),
         (N(r"^<timeunit::TimeUnit as PartialEq>::eq$"), n_enum_eq),
+        (N(r"^convert::<impl datetime::DateTime<U>>::into_unit::<timeunit::(\w+)>$"), n_into_unit),
+        (N(r"^core::num::<impl i64>::div_euclid$"), lambda ex, c, a, m: VInt(_euclid(ex, a, "div"))),
         (N(r"^datetime::DateTime::<[UT]>::(\w+)$"), own("datetime")),
         (N(r"^timedelta::TimeDelta::(is_nat|is_not_nat|nat)$"), own("timedelta")),
         (N(r"^<datetime::DateTime<[UT]> as TryInto<chrono::DateTime<Utc>>>::try_into$"), n_try_into),
@@ -614,7 +631,7 @@ def make_natives(E, unit):
         (N(r"^MappedLocalTime::<chrono::DateTime<Utc>>::unwrap$"), lambda ex, c, a, m: a[0]),
         (N(r"^NaiveTime::from_hms_opt$"), n_naive_time_hms),
         (N(r"^Option::<NaiveTime>::(?:unwrap|expect)$"), n_expect),
-        (N(r"^Option::<chrono::DateTime<Utc>>::map::<"), n_opt_map),
+        (N(r"^Option::<(?:chrono::DateTime<Utc>|i64|NaiveDateTime|NaiveTime)>::map::<"), n_opt_map),
         (N(r"^chrono::DateTime::<Utc>::time$"), n_cr_time),
         (N(r"^<(?:NaiveDateTime|NaiveDate) as Datelike>::(year|month|month0|day|day0)$"), lambda ex, c, a, m: naive_field(m.group(1))(ex, c, a, m)),
         (N(r"^<NaiveDateTime as Timelike>::(hour|minute|second|nanosecond)$"), lambda ex, c, a, m: naive_field(m.group(1))(ex, c, a, m)),
